@@ -139,6 +139,11 @@ func vnXConstruct(id string, kind int, src []byte, exp []vnXTok) ([]byte, []vnXT
 		if vBool(id + "pia") {
 			src, exp = vnXAttr(id+"p", src, exp)
 		}
+		if vBool(id + "piw") { // PI data is free text: a bare word, possibly directly before "?>"
+			word := vnXName(id+"pv", 2)
+			src = append(append(src, ' '), word...)
+			exp = append(exp, vnXTok{AttributeToken, word, nil, -1})
+		}
 		w := vnXWS(id+"pw", 0, 1)
 		src = append(append(src, w...), "?>"...)
 		return src, append(exp, vnXTok{StartTagClosePIToken, nil, nil, 2}), false
